@@ -39,6 +39,7 @@ REQUIRED = {
     "expected_exceptions_seen": 300,
     "derived_views_checked": 800,
     "dtype_switches_between_sessions": 300,
+    "refused_attempts_on_readonly": 100,
 }
 
 
@@ -423,6 +424,30 @@ def run_history(rng, res: ShardResult, hist_no: int):
                 if got != exp:
                     return fail(f"append of incompatible field ({label}): implementation {'raised' if got else 'succeeded'}, model says {'error' if exp else 'success'}")
             elif op == "start_bad":
+                if model.mode == "readonly" and len(model.times) > 0:
+                    # a refused writing attempt must leave a read-only storage untouched, also when the
+                    # offered field has the same data shape but another dtype, or lives on another grid
+                    if rng.random() < 0.5 or gi == 2:
+                        offered = make_field(rng, kind, grid, "float64")
+                        offered = offered.copy(dtype=int) if hasattr(offered, "copy") and kind != "collection" else offered
+                    else:
+                        g2 = pde.CartesianGrid([[0, 2.0 * n] for n in grid.shape], list(grid.shape), periodic=list(grid.periodic))
+                        offered = make_field(rng, kind, g2, dtype)
+                    try:
+                        storage.start_writing(offered)
+                        got = None
+                    except (RuntimeError, ValueError):
+                        got = "error"
+                        res.count("expected_exceptions_seen")
+                    res.count("refused_attempts_on_readonly")
+                    log.append(("start_writing on readonly with another field", got))
+                    if got is None:
+                        return fail("start_writing on a readonly storage succeeded")
+                    read_check = list(storage)
+                    for j, f in enumerate(read_check):
+                        if f.grid != grid or not np.array_equal(f.data, model.frames[j]):
+                            return fail(f"after a refused writing attempt frame {j} reads back differently (grid or data changed)")
+                    continue
                 if model.shape is None or model.mode == "readonly":
                     continue
                 other_kind = "vector" if kind == "scalar" else "scalar"
